@@ -129,7 +129,13 @@ def _lazy_contract(ctx, P):
     output) and, since the outputs have core dimensions the inputs lack, `dask_gufunc_kwargs['output_sizes']` naming every
     output core dimension with its length in the grid's dataset (documented contract of apply_ufunc(dask='parallelized'))."""
     fi = P.func("grid_ufunc:apply_as_grid_ufunc")
-    cases = [("(X:center)->(X:outer)", {"X": (1, 1)}, [dimsym("AX", "outer")], 1), ("(X:center)->(X:left),(X:right)", {"X": (1, 1)}, [dimsym("AX", "left"), dimsym("AX", "right")], 2)]
+    cases = [
+        ("(X:center)->(X:outer)", {"X": (1, 1)}, [dimsym("AX", "outer")], 1),
+        ("(X:center)->(X:left),(X:right)", {"X": (1, 1)}, [dimsym("AX", "left"), dimsym("AX", "right")], 2),
+        # the output keeps the input's core dimension: it is excluded (all core dimensions are), so its length must still be declared
+        ("(X:center)->(X:center)", {"X": (1, 1)}, [dimsym("AX", "center")], 1),
+        ("(X:center)->(X:center),(X:left)", {"X": (1, 1)}, [dimsym("AX", "center"), dimsym("AX", "left")], 2),
+    ]
     for sig, bw, out_dims, nout in cases:
         inst = f"apply_ufunc arguments for lazy outputs, {sig}"
         try:
@@ -152,8 +158,12 @@ def _lazy_contract(ctx, P):
                     bad = bad or f"output_dtypes is {od!r}; one dtype per output ({nout}) is needed to build the lazy result"
                 dg = kw.get("dask_gufunc_kwargs")
                 sizes = dg.get("output_sizes") if isinstance(dg, dict) else None
-                if not isinstance(sizes, dict) or set(sizes) != set(out_dims):
-                    bad = bad or f"dask_gufunc_kwargs['output_sizes'] names {sorted(map(repr, sizes)) if isinstance(sizes, dict) else sizes!r}; every output core dimension {sorted(map(repr, out_dims))} changes length and must be given"
+                ex = kw.get("exclude_dims")
+                icd = [d for arg in (kw.get("input_core_dims") or []) for d in arg]
+                # apply_ufunc demands a declared length for an output core dimension that the inputs lack or that is excluded
+                required = {d for d in out_dims if d not in icd or not isinstance(ex, (set, frozenset)) or d in ex}
+                if not isinstance(sizes, dict) or not required <= set(sizes) or not set(sizes) <= set(out_dims):
+                    bad = bad or f"dask_gufunc_kwargs['output_sizes'] names {sorted(map(repr, sizes)) if isinstance(sizes, dict) else sizes!r}; the output core dimensions {sorted(map(repr, required))} are new or excluded (their length changes) and must be given"
                 elif not all(isinstance(v, Obj) and v.kind == "sizes" and v.eff and v.eff[-1][0] == "getitem" and v.eff[-1][1] == d for d, v in sizes.items()):
                     bad = bad or "an output size is not the length of that dimension in the grid's dataset"
                 if kw.get("dask") != "parallelized":
@@ -523,28 +533,44 @@ def _chunk_merge(ctx, P):
             ctx.unknown("R06.5", f"chunk merge, {name}", str(e))
 
 
-def _merge_all_inputs(ctx, P):
-    """R06.5 (whole function): every padded input comes back, in order, re-chunked with the pattern computed from *its own*
-    unpadded chunks."""
+def run_merge_all(P):
+    """Evaluate _rechunk_to_merge_in_boundary_chunks on two padded inputs `pa`, `pb` whose originals `a`, `b` are chunked
+    differently.  A re-wrapped array (`xr.DataArray(x.variable ...)`) keeps its label and lineage, marked `new-DataArray`."""
     fi = P.func("grid_ufunc:_rechunk_to_merge_in_boundary_chunks")
     dim = dimsym("AX", "center")
     chunks = {"a": (Lin.sym("a0"), Lin.sym("a1")), "b": (Lin.sym("b0"), Lin.sym("b1"), Lin.sym("b2"))}
 
     def variable(ev, o, n):
-        return Obj("Variable", "variable", (), {"chunksizes": {dim: chunks[o.name], Sym("t"): (Lin.sym("ct"),)}})
+        if o.name in chunks and not o.eff:
+            return Obj("Variable", "variable", (), {"chunksizes": {dim: chunks[o.name], Sym("t"): (Lin.sym("ct"),)}})
+        return Obj("Variable", o.name, o.eff + (("variable",),), dict(o.attrs))
 
     def chunk(ev, recv, args, kw, node):
-        return recv.with_eff(("chunk", args[0] if args else kw.get("chunks", kw)))  # DataArray.chunk(chunks={...}) or chunk(**{...})
+        return recv.with_eff(("chunk", args[0] if args else kw.get("chunks", kw)))  # .chunk(chunks={...}) or chunk(**{...})
+
+    def m_new_da(ev, args, kw, node):
+        src = args[0] if args else kw.get("data")
+        if not (isinstance(src, Obj) and src.kind == "Variable" and src.eff):
+            raise Unmodelled(f"xr.DataArray({src!r})", node)
+        return Obj("DataArray", src.name, src.eff + (("new-DataArray", kw.get("name")),), dict(src.attrs))
 
     am = dict(da_attr_models())
     am[("DataArray", "variable")] = variable
     mm = dict(da_method_models())
     mm[("DataArray", "chunk")] = chunk
-    ev = Evaluator(P, attr_models=am, method_models=mm)
+    mm[("Variable", "chunk")] = chunk
+    ev = Evaluator(P, models={"xarray.DataArray": m_new_da}, attr_models=am, method_models=mm)
+    outs = ev.run_paths(fi, lambda: dict(padded_args=[make_da("pa", [Sym("t"), dim], name=Sym("name_of_pa")), make_da("pb", [Sym("t"), dim], name=Sym("name_of_pb"))], original_args=[make_da("a", [Sym("t"), dim]), make_da("b", [Sym("t"), dim])],
+                                         boundary_width_real_axes={AX: (1, 2)}, grid=make_grid(("AX", "AY"))))
+    return fi, dim, chunks, outs
+
+
+def _merge_all_inputs(ctx, P):
+    """R06.5 (whole function): every padded input comes back, in order, re-chunked with the pattern computed from *its own*
+    unpadded chunks."""
     inst = "merge for two inputs with different chunking"
     try:
-        outs = ev.run_paths(fi, lambda: dict(padded_args=[make_da("pa", [Sym("t"), dim]), make_da("pb", [Sym("t"), dim])], original_args=[make_da("a", [Sym("t"), dim]), make_da("b", [Sym("t"), dim])],
-                                             boundary_width_real_axes={AX: (1, 2)}, grid=make_grid(("AX", "AY"))))
+        fi, dim, chunks, outs = run_merge_all(P)
     except Unmodelled as e:
         ctx.unknown("R06.5", inst, str(e))
         return
